@@ -14,6 +14,7 @@ func init() {
 			ruleRemoveAllDropsEverything(c, "R5")
 			ruleFacadeRemovals(c, "R6")
 			ruleRoutesLiveness(c, "R7")
+			ruleSummaryIsNotLiveness(c, "R7b")
 		},
 	})
 }
